@@ -68,7 +68,7 @@ class SuffixValueWriter {
   void Visit(int index, T value) { file_.print("{} {}\n", index, value); }
 
   void Visit(int index, double value)
-  { file_.print("{} {:.16}\n", index, value); }
+  { file_.print("{} {:.17}\n", index, value); }
 };
 
 /// Write suffixes to a file
@@ -116,9 +116,9 @@ void WriteSolFile(fmt::CStringRef filename, const Solution &sol) {
   file.print("{0}\n{1}\n{2}\n{3}\n",
     num_constraints, num_dual_values, num_vars, num_values);
   for (int i = 0, n = num_dual_values; i < n; ++i)
-    file.print("{:.16}\n", sol.dual_value(i));
+    file.print("{:.17}\n", sol.dual_value(i));
   for (int i = 0; i < num_values; ++i)
-    file.print("{:.16}\n", sol.value(i));
+    file.print("{:.17}\n", sol.value(i));
   file.print("objno {} {}\n", sol.objno()-1, sol.status());
   suf::Kind kinds[] = {suf::VAR, suf::CON, suf::OBJ, suf::PROBLEM};
   for (std::size_t i = 0, n = sizeof(kinds) / sizeof(*kinds); i < n; ++i)
